@@ -25,7 +25,7 @@ from . import _core_common as cc
 PROP = 'C02'
 ENGINE = 'coresim+timesim+iosim'
 HASH_CLASSES = 1
-RUNS = {'quick': 1200, 'thorough': 30000}
+RUNS = {'quick': 2400, 'thorough': 30000}
 RUN_TIMEOUT = 300
 DETERMINISM_RUNS = 10
 RULE = ("70% of runs: generator of C01 (non-flat, mostly non-vacuum "
